@@ -358,11 +358,10 @@ def mat_entries(M, dims):
         acc[(int(r), int(cc))] = acc.get((int(r), int(cc)), 0.0) + float(v)
     out = []
     for (r, cc), v in sorted(acc.items()):
-        q = lift.lift(v)
-        if q is not None and q == 0:
+        q = lift.lift_enc(v)
+        if q == [0, 1]:
             continue
-        out.append([[int(x) for x in np.unravel_index(r, full)], [int(x) for x in np.unravel_index(cc, full)],
-                    lift.enc(q)])
+        out.append([[int(x) for x in np.unravel_index(r, full)], [int(x) for x in np.unravel_index(cc, full)], q])
     return out
 
 
@@ -373,11 +372,10 @@ def dense_entries(A, dims):
     out = []
     rs, cs = np.nonzero(A)
     for r, cc in zip(rs, cs):
-        q = lift.lift(A[r, cc])
-        if q is not None and q == 0:
+        q = lift.lift_enc(A[r, cc])
+        if q == [0, 1]:
             continue
-        out.append([[int(x) for x in np.unravel_index(int(r), full)], [int(x) for x in np.unravel_index(int(cc), full)],
-                    lift.enc(q)])
+        out.append([[int(x) for x in np.unravel_index(int(r), full)], [int(x) for x in np.unravel_index(int(cc), full)], q])
     return out
 
 
